@@ -327,7 +327,8 @@ Section Facts.
     let '(c', b', o) := conn_step c b (CCmd "CLOSE" ANone) in
     has_selected (c_phase c') = false /\
     (ro = true -> o_cond o = OK /\ b' = b /\ c_phase c' = Authd u) /\
-    (ro = false -> forall r g b1, bk b (call "expunge_mailbox" [] []) = (AnsOk r g, b1) ->
+    (ro = false -> forall x b1, bk b (call "expunge_mailbox" [] []) = (x, b1) ->
+                   (exists r g, x = AnsOk r g) \/ x = AnsNotFound ->
                    o_cond o = OK /\ b' = b1 /\ c_phase c' = Authd u).
   Proof.
     intros Hl (Hc & Hg & Hh) Hna Hn Hph.
@@ -344,6 +345,7 @@ Section Facts.
            if ro then ret B v0 b OK WDone
            else match bk b (call "expunge_mailbox" [] []) with
                 | (AnsOk _ _, b') => ret B v0 b' OK WDone
+                | (AnsNotFound, b') => ret B v0 b' OK WDone
                 | (x, b') => on_raise B v0 b' x
                 end
        | _ => crash B (c_view c) b
@@ -351,8 +353,12 @@ Section Facts.
     rewrite Hph. destruct ro.
     - cbn. repeat split; try discriminate; auto.
     - destruct (bk b (call "expunge_mailbox" [] [])) as [x b1] eqn:Eb.
-      destruct x; cbn; repeat split; try discriminate; intros; try congruence.
-      all: match goal with H : (_, _) = (_, _) |- _ => inversion H; subst; auto end.
+      destruct x; cbn; repeat split; try discriminate; intros;
+        repeat match goal with
+               | H : (_, _) = (_, _) |- _ => inversion H; subst; clear H
+               | H : _ \/ _ |- _ => destruct H
+               | H : exists _, _ |- _ => destruct H
+               end; try discriminate; auto.
   Qed.
 
   Lemma step_select c b e name m u :
@@ -381,7 +387,7 @@ Section Facts.
        change ("SELECT" =? "SELECT") with true; cbn [orb];
        rewrite Eph; cbn [mailbox_arg];
        destruct (bk b (mk_bcall "select_mailbox" m [] [] (name =? "EXAMINE"))) as [x b1] eqn:Eb;
-       destruct x as [ro' gone| | | | |]; [destruct gone|..]; cbn;
+       destruct x as [ro' gone| | | | | |]; [destruct gone|..]; cbn;
        (split; intros; match goal with H : (_, _) = (_, _) |- _ => inversion H; subst end; auto)).
   Qed.
 
@@ -462,7 +468,8 @@ Lemma close_deselects_tbl :
     let '(c', b', o) := conn_step B bk cmd_table cfg c b (CCmd "CLOSE" ANone) in
     has_selected (c_phase c') = false /\
     (ro = true -> o_cond o = OK /\ b' = b /\ c_phase c' = Authd u) /\
-    (ro = false -> forall r g b1, bk b (call "expunge_mailbox" [] []) = (AnsOk r g, b1) ->
+    (ro = false -> forall x b1, bk b (call "expunge_mailbox" [] []) = (x, b1) ->
+                   (exists r g, x = AnsOk r g) \/ x = AnsNotFound ->
                    o_cond o = OK /\ b' = b1 /\ c_phase c' = Authd u).
 Proof.
   intros B bk cfg c b u m ro Hph.
